@@ -10,6 +10,7 @@ Assumed: group.makegroup computes the closure (np.allclose membership is exact o
 Not decided: ties of the trace (measure zero), numerical effect on indexing.
 """
 import ast
+import re
 import itertools
 from fractions import Fraction as Fr
 
@@ -132,6 +133,8 @@ def run(R):
         r3(R, m)
     if R.want("C16.R4"):
         r4(R)
+    if R.want("C16.R6"):
+        r6(R)
     if R.want("C16.R5"):
         # the users of the reduction (refinegrains.makeuniq, point_by_point) install the canonical matrix through grain.set_ubi:
         # a direct write of <grain>.ubi leaves U / UB / B / Rod of the previous orbit member in the caches.  Shared with C04.R1.
@@ -336,6 +339,57 @@ def r4(R):
                         "would make the loop over .group fail or reduce with the wrong operators)")
     if n < 3:
         R.fail("C16.R4 found %d callers of the reduction, expected at least 3" % n)
+
+
+def r6(R):
+    R.rule("C16.R6", "outside sym_u the operators of a group (elements of <group>.group, integer matrices in the crystal basis) are only "
+                     "ever multiplied from the left onto a UBI (rows = real-space lattice vectors); applied to U, U^T or UB they are not "
+                     "the symmetry-equivalent orientations unless B commutes with them (cubic ... but not hexagonal / trigonal / rhombohedral)")
+    nuse = 0
+    for rel in pyfacts.library_files(R.root, R.tier):
+        mm = pyfacts.module(R, rel)
+        if ".group" not in mm.text or rel == REL:
+            continue
+        for fn in [f_ for f_ in ast.walk(mm.tree) if isinstance(f_, ast.FunctionDef)]:
+            # names that stand for one operator or for the stacked operators of a group
+            opnames = set()
+            for n_ in ast.walk(fn):
+                its = [(n_.target, n_.iter)] if isinstance(n_, ast.For) else \
+                    ([(g_.target, g_.iter) for g_ in n_.generators] if isinstance(n_, (ast.ListComp, ast.GeneratorExp)) else [])
+                for tgt, it in its:
+                    if isinstance(it, ast.Attribute) and it.attr == "group" and isinstance(tgt, ast.Name):
+                        opnames.add(tgt.id)
+            def is_ops(e):
+                if isinstance(e, ast.Name) and e.id in opnames:
+                    return True
+                if isinstance(e, ast.Attribute) and e.attr == "group":
+                    return True
+                if isinstance(e, ast.Call) and (pyfacts.dotted(e.func) or "").split(".")[-1] in ("array", "asarray") and e.args:
+                    return is_ops(e.args[0])
+                return False
+            for c in ast.walk(fn):
+                pair = None
+                if isinstance(c, ast.Call) and (pyfacts.dotted(c.func) or "").split(".")[-1] in ("dot", "matmul") and len(c.args) == 2:
+                    pair = (c.args[0], c.args[1])
+                elif isinstance(c, ast.Call) and isinstance(c.func, ast.Attribute) and c.func.attr == "dot" and len(c.args) == 1:
+                    pair = (c.func.value, c.args[0])
+                elif isinstance(c, ast.BinOp) and isinstance(c.op, ast.MatMult):
+                    pair = (c.left, c.right)
+                if pair is None or not (is_ops(pair[0]) or is_ops(pair[1])):
+                    continue
+                nuse += 1
+                left_ok = is_ops(pair[0])
+                other = pair[1] if left_ok else pair[0]
+                t = pyfacts.resolved_src(fn, other, 2).replace(" ", "")
+                is_ubi = bool(re.search(r"(^|[._])ubi(s)?(\[[^\]]*\])?$", t, re.I))
+                is_u = bool(re.search(r"\.(U|UB|u|ub)(\.T)?$", t)) or bool(re.search(r"(^|_)(U|UB)(\.T)?$", t))
+                R.check(left_ok and not is_u, "C16.R6", rel, c.lineno, mm.qualname(fn), "operator applied as %s" % src(c)[:70],
+                        "a crystal-basis symmetry operator is multiplied onto %s: the products are not the symmetry-equivalent orientation "
+                        "matrices for groups whose operators do not commute with B (hexagonal, trigonal, rhombohedral)" % ("the right of a matrix" if not left_ok else t))
+                if left_ok and not is_u and not is_ubi:
+                    R.note("C16.R6: operand %s of a group operator in %s:%s is neither recognisably a UBI nor a U" % (t, rel, mm.qualname(fn)))
+    if nuse < 1:
+        R.fail("C16.R6 found no application of group operators outside sym_u (anchor moved: grid_index_parallel.uniq_grain_list)")
 
 
 def _is_group_expr(mm, fn, g, depth=0):
